@@ -13,6 +13,8 @@ import Retro.Lemmas.Obj
 import Retro.Lemmas.ObjLex
 import Retro.Lemmas.ObjPrint
 import Retro.Lemmas.ObjCanon
+import Retro.Spec.Decimal
+import Retro.Lemmas.ParseF32
 
 namespace Retro.Props.C14
 open Retro Retro.Obj Retro.ObjSpec
@@ -124,6 +126,8 @@ theorem parseUsize_lt (s : List UInt8) (n : Nat) (h : parseUsize s = some n) : n
       · simp at h
     · simp at h
 
+example : parseUsize [43, 49, 50] = some 12 := by decide   -- "+12"
+
 /-- An index past the last vertex is reported, whatever the order of faces and vertices. -/
 example : parseObj (fun _ => some 0)
     [102, 32, 49, 32, 49, 32, 50, 10, 118, 32, 48, 32, 48, 32, 48]   -- "f 1 1 2\nv 0 0 0"
@@ -163,6 +167,45 @@ theorem obj_parse_print (pf : List UInt8 → Option UInt32) (lay : Layout) (m : 
   rw [l1, l2] at h
   exact h
 
+/-- **A dangling face is always rejected** (generalises the D7 witness).  If every line of a
+document is well-formed but some face corner refers to a vertex that the file never defines,
+the reader returns `Err(IndexOutOfBounds("vertex", m))` with `m` the largest position index of
+the file (`m ≥` number of vertices) – wherever the face stands, and also when the file defines
+no vertex at all.  It never returns a mesh and never panics. -/
+theorem obj_dangling_face_rejected (pf : List UInt8 → Option UInt32) (doc : List Item)
+    (hok : ∀ it ∈ doc, itemOk pf it)
+    (hbad : ∃ f ∈ docFacesI doc, (docVerts doc).length ≤ f.1.pos ∨ (docVerts doc).length ≤ f.2.1.pos ∨
+      (docVerts doc).length ≤ f.2.2.pos) :
+    ∃ m, (docVerts doc).length ≤ m ∧
+      parseObj pf (renderDoc doc) = .ok (.error (.indexOutOfBounds .vertex m)) := by
+  obtain ⟨f, hf, hge⟩ := hbad
+  have hfold := foldLines_renderDoc pf doc {} hok
+  have hinv : Inv (doc.foldl applyItem {}) := foldLines_inv pf _ _ _ inv_init hfold
+  have hfaces := foldl_faces doc {}
+  have hverts := foldl_verts doc {}
+  simp only [List.nil_append] at hfaces hverts
+  have hmem : f ∈ (doc.foldl applyItem {}).faces := by rw [hfaces]; exact hf
+  obtain ⟨h1, h2, h3⟩ := hinv f hmem
+  refine ⟨(doc.foldl applyItem {}).maxI.pos, by omega, ?_⟩
+  have hne : (doc.foldl applyItem {}).faces.isEmpty = false := by
+    cases hfs : (doc.foldl applyItem {}).faces with
+    | nil => rw [hfs] at hmem; simp at hmem
+    | cons _ _ => rfl
+  have hc : (!(doc.foldl applyItem {}).faces.isEmpty &&
+      decide ((doc.foldl applyItem {}).maxI.pos ≥ (doc.foldl applyItem {}).verts.length)) = true := by
+    rw [hne, hverts]; simp; omega
+  have hfin : finish (doc.foldl applyItem {}) =
+      .ok (.error (.indexOutOfBounds .vertex (doc.foldl applyItem {}).maxI.pos)) := by
+    unfold finish; rw [if_pos hc]
+  unfold parseObj
+  rw [hfold]
+  exact hfin
+
+-- satisfiable: "f 1 2 3" alone
+example : ∃ f ∈ docFacesI [Item.face [] [32] ⟨⟨0, none, none⟩, [32]⟩ ⟨⟨1, none, none⟩, [32]⟩ ⟨⟨2, none, none⟩, []⟩],
+    (docVerts [Item.face [] [32] ⟨⟨0, none, none⟩, [32]⟩ ⟨⟨1, none, none⟩, [32]⟩ ⟨⟨2, none, none⟩, []⟩]).length ≤ f.1.pos :=
+  ⟨_, List.mem_cons_self, Nat.le_refl _⟩
+
 -- Non-vacuity of `docOk`: a document with a comment, CRLF line end, a face before its vertices in
 -- the `a//c` and `a/b/c` forms, exponent notation; rendered and parsed by the concrete model.
 def exampleDoc : List Item :=
@@ -197,11 +240,120 @@ example : parseObj examplePf (renderDoc exampleDoc)
   rfl
 
 -- Non-vacuity of `layoutOk` / `textMeshOk`.
+example : textMeshOk examplePf { verts := [(([49], 0x3F800000), ([48], 0), ([45, 46, 53], 0xBF000000))], faces := [(0, 0, 0)] } := by
+  refine ⟨?_, ?_, by decide⟩
+  · intro v hv
+    simp only [List.mem_cons, List.mem_nil_iff, or_false] at hv
+    subst hv
+    simp [tokOk, examplePf, isWs]
+  · intro f hf
+    simp only [List.mem_cons, List.mem_nil_iff, or_false] at hf
+    subst hf
+    simp
 example : layoutOk { facesFirst := true, indent := [32, 9], sep := [32], trail := [13], comment := some [104, 105], blankBetween := true } := by
   refine ⟨?_, ⟨by simp, ?_⟩, ?_, ?_⟩
   · intro b hb; simp at hb; rcases hb with rfl | rfl <;> decide
   · intro b hb; simp at hb; subst hb; decide
   · intro b hb; simp at hb; subst hb; decide
   · intro t ht; simp at ht; subst ht; decide
+
+/-! ### The written coordinates: the driver's float parser on decimal literals
+
+`f32::from_str` is a parameter of the theorems above.  The instance the driver runs,
+`ParseF32.parseF32`, is characterised here on every literal of the OBJ float grammar
+(`Retro.Decimal.Literal`: optional sign, digits, optional fraction, optional exponent with `e`/`E`
+and optional sign); that this agrees with Rust's parser is checked differentially (op `f32`). -/
+
+/-- Plain and exponent notation: the parser accepts every well-formed literal and returns the
+sign bit together with `encodeMag mantissa exponent`, where `mantissa` is the number formed by all
+written digits and `exponent` the written exponent minus the number of fraction digits. -/
+theorem parseF32_decimal (l : Decimal.Literal) (h : Decimal.wf l) :
+    ParseF32.parseF32 (Decimal.text l) =
+      some (ParseF32.encodeMag (Decimal.mantissa l) (Decimal.exponent l) |||
+        (if l.sign = some true then 0x80000000 else 0)) :=
+  ParseF32.parseF32_text l h
+
+/-- … and `encodeMag d e` is the exact rational `d · 10^e` rounded to nearest-even binary32
+(`F32.ofRat`) whenever the decimal magnitude is not astronomically out of range (outside this
+band the result is ∞ resp. 0 without building the power of ten). -/
+theorem encodeMag_exact (d : Nat) (e : Int) (hd : d ≠ 0)
+    (h1 : ((ParseF32.numDigits (d.log2 + 1) d : Nat) : Int) + e ≤ 41)
+    (h2 : -50 ≤ ((ParseF32.numDigits (d.log2 + 1) d : Nat) : Int) + e) :
+    ParseF32.encodeMag d e =
+      F32.ofRat (if e ≥ 0 then ((d * ParseF32.pow10 e.toNat : Nat) : Rat)
+                 else (d : Rat) / ((ParseF32.pow10 (-e).toNat : Nat) : Rat)) := by
+  unfold ParseF32.encodeMag
+  have hd' : (d == 0) = false := by simp [hd]
+  simp only [hd', Bool.false_eq_true, if_false]
+  rw [if_neg (by omega), if_neg (by omega)]
+
+/-- A literal is a single token: non-empty and free of whitespace. -/
+theorem decimal_text_tokOk (l : Decimal.Literal) (h : Decimal.wf l) : tokOk (Decimal.text l) := by
+  constructor
+  · intro hnil
+    have := ParseF32.parseF32_text l h
+    rw [hnil] at this
+    simp [ParseF32.parseF32] at this
+  · intro b hb
+    have hc := ParseF32.text_litChar l h b hb
+    rcases hc with hd | rfl | rfl | rfl | rfl | rfl
+    · -- a digit is not whitespace
+      simp only [ParseF32.isDigit, Bool.and_eq_true, decide_eq_true_eq] at hd
+      have h20 : b ≠ 0x20 := by intro hb; subst hb; revert hd; decide
+      have h09 : b ≠ 0x09 := by intro hb; subst hb; revert hd; decide
+      have h0a : b ≠ 0x0A := by intro hb; subst hb; revert hd; decide
+      have h0c : b ≠ 0x0C := by intro hb; subst hb; revert hd; decide
+      have h0d : b ≠ 0x0D := by intro hb; subst hb; revert hd; decide
+      simp [isWs, h20, h09, h0a, h0c, h0d]
+    all_goals decide
+
+/-- **End to end for the model the driver runs.**  A mesh whose coordinates are written as
+arbitrary decimal literals (plain or exponent notation), printed by `printObj` in any layout and
+read by `parseObj` with the driver's float parser, yields exactly the listed triangles and, for
+every coordinate, the binary32 value `±encodeMag mantissa exponent` of its literal. -/
+theorem obj_parse_print_decimal (lay : Layout)
+    (verts : List (Decimal.Literal × Decimal.Literal × Decimal.Literal)) (faces : List (Nat × Nat × Nat))
+    (hl : layoutOk lay)
+    (hv : ∀ v ∈ verts, Decimal.wf v.1 ∧ Decimal.wf v.2.1 ∧ Decimal.wf v.2.2)
+    (hf : ∀ f ∈ faces, f.1 < verts.length ∧ f.2.1 < verts.length ∧ f.2.2 < verts.length)
+    (hlen : verts.length < usizeBound) :
+    let enc := fun (l : Decimal.Literal) =>
+      ParseF32.encodeMag (Decimal.mantissa l) (Decimal.exponent l) ||| (if l.sign = some true then 0x80000000 else 0)
+    let m : TextMesh :=
+      { verts := verts.map fun v => ((Decimal.text v.1, enc v.1), (Decimal.text v.2.1, enc v.2.1), (Decimal.text v.2.2, enc v.2.2))
+        faces := faces }
+    parseObj ParseF32.parseF32 (renderDoc (printObj lay m)) =
+      .ok (.ok { faces := faces, verts := verts.map fun v => (enc v.1, enc v.2.1, enc v.2.2) }) := by
+  intro enc m
+  have hm : textMeshOk ParseF32.parseF32 m := by
+    refine ⟨?_, ?_, ?_⟩
+    · intro v hv'
+      simp only [m, List.mem_map] at hv'
+      obtain ⟨w, hw, rfl⟩ := hv'
+      obtain ⟨h1, h2, h3⟩ := hv w hw
+      exact ⟨⟨decimal_text_tokOk _ h1, parseF32_decimal _ h1⟩, ⟨decimal_text_tokOk _ h2, parseF32_decimal _ h2⟩,
+        ⟨decimal_text_tokOk _ h3, parseF32_decimal _ h3⟩⟩
+    · intro f hf'
+      simp only [m, List.length_map]
+      exact hf f hf'
+    · simp only [m, List.length_map]; exact hlen
+  have := obj_parse_print ParseF32.parseF32 lay m hl hm
+  simp only [TextMesh.vertVals, m, List.map_map] at this
+  exact this
+
+-- hypotheses of `encodeMag_exact` for "3.0e-2" (mantissa 30, exponent −3)
+example : (30 : Nat) ≠ 0 ∧ ((ParseF32.numDigits ((30 : Nat).log2 + 1) 30 : Nat) : Int) + (-3) ≤ 41 ∧
+    -50 ≤ ((ParseF32.numDigits ((30 : Nat).log2 + 1) 30 : Nat) : Int) + (-3) := by decide
+
+-- "-1.0e0", "0.2e1", "3.0e-2" of the repository's own test `exp_notation`, and "1.23e3":
+example : ParseF32.parseF32 [45, 49, 46, 48, 101, 48] = some 0xBF800000 := by decide +kernel
+example : ParseF32.parseF32 [48, 46, 50, 101, 49] = some 0x40000000 := by decide +kernel
+example : ParseF32.parseF32 [51, 46, 48, 101, 45, 50] = some 0x3CF5C28F := by decide +kernel
+example : ParseF32.parseF32 [49, 46, 50, 51, 101, 51] = some 0x4499C000 := by decide +kernel
+example : Decimal.wf ⟨some true, [1], true, [0], some ⟨false, none, [0]⟩⟩ := by
+  refine ⟨?_, ?_, by decide, by simp, ?_⟩
+  · intro d hd; simp at hd; omega
+  · intro d hd; simp at hd; omega
+  · intro e he; simp at he; subst he; exact ⟨by intro d hd; simp at hd; omega, by simp⟩
 
 end Retro.Props.C14
